@@ -160,7 +160,7 @@ pub fn boundary_ports() -> Vec<u16> {
 }
 
 pub fn run(out: &mut Out, rng: &mut Rng, tier: Tier) {
-    trap::allow_stray_port_io(true);
+    trap::allow_stray(true);
     let _ = trap::take_stray();
     if let Err(e) = trap::selftest() {
         eprintln!("trap selftest FAILED: {}", e);
